@@ -15,6 +15,7 @@ import (
 	"github.com/boz/kcache"
 	"github.com/boz/kcache/nsname"
 	metav1 "k8s.io/apimachinery/pkg/apis/meta/v1"
+	"k8s.io/apimachinery/pkg/types"
 
 	"verifharness/kit"
 )
@@ -31,7 +32,11 @@ func (m mobj) pod() metav1.Object {
 	if m.lab != "" {
 		l = map[string]string{"l": m.lab}
 	}
-	return kit.Pod(m.ns, m.name, m.rv, l)
+	p := kit.Pod(m.ns, m.name, m.rv, l)
+	// the UID varies with the version: an object deleted and re-created under the same
+	// name (the delete may have been missed) is still the same KEY for the cache
+	p.UID = types.UID(fmt.Sprintf("uid-%d", kit.HashStr(m.rv)%3))
+	return p
 }
 func (m mobj) id() string     { return m.rv + "~" + m.lab }
 func (m mobj) String() string { return m.key() + "@" + m.rv + "~" + m.lab }
@@ -776,7 +781,6 @@ func e1WalkCase(seed uint64, wi int, steps int) Case {
 		}}
 }
 
-
 // e1ReaderCase: what a reader sees WHILE a sync/refilter is being applied.  The
 // cache's filter (a harness collaborator) takes virtual time for every object,
 // so the operation is in progress for a while; a second goroutine reads all
@@ -893,7 +897,6 @@ func e1ReaderCase(seed uint64, n int) Case {
 		r.Add("reader-during-sync-rounds", int64(rounds))
 	}}
 }
-
 
 // e1LongLifeCase: ONE cache through tens of thousands of synchronisations (more
 // than a 16-bit counter holds).  At intervals, and densely around the powers
